@@ -1,9 +1,11 @@
 (* C17 correspondence checker *)
 From VF Require Import C17.Cost C17.BTCost C17.SkipCost C01.Order C01.BTree.
+From VF Require C01.RB C01.AVL.
 Local Open Scope Z_scope.
 
 Inductive ckind := KRB | KAVL | KBT (m : nat).
-Inductive shape := SBin (t : BinTree.tree Z Z unit) | SBT (t : BTree.node Z Z) | SBTEmpty.
+Inductive shape := SBin (t : BinTree.tree Z Z unit) | SBT (t : BTree.node Z Z) | SBTEmpty
+| SRB (t : RB.tree Z Z) | SAVL (t : AVL.tree Z Z).                   (* with colours / balance factors: CBinOps *)
 Inductive probe := PGet (k : Z) | PFloor (k : Z) | PCeiling (k : Z) | PPutPresent (k : Z) | PRemoveAbsent (k : Z).
 Inductive bop := BGet | BPut | BRemove.
 
@@ -26,6 +28,8 @@ Inductive case :=
 (* B-tree of order m: dumped shape, then mutating operations, each with its comparator-call count; the model tree is
    carried along by the C01 model and compared with a second dump at the end (MFinal) *)
 | CBTOps (m : nat) (s : shape) (ops : list (mprobe * nat))
+(* red-black (SRB) / AVL (SAVL) tree: the same with the C01 models RB.put / RB.remove / AVL.put / AVL.remove *)
+| CBinOps (s : shape) (ops : list (mprobe * nat))
 (* skip lists: highestLevel, level-0 keys, node heights (level fields), lanes each node is actually linked on; then
    operations, each with (comparator calls, highestLevel afterwards); SFinal carries a second dump *)
 | CSkipOps (k : skind) (highest : nat) (keys : list Z) (heights lanes : list nat) (ops : list (sprobe * nat * nat)).
@@ -47,6 +51,8 @@ Definition model_cost (s : shape) (p : probe) : nat :=
   | SBin t => path_cost Z Z unit zcmp (key_of p) t
   | SBT t => get_cost Z Z zcmp 64 (key_of p) t
   | SBTEmpty => O
+  | SRB t => path_cost Z Z RB.color zcmp (key_of p) t
+  | SAVL t => path_cost Z Z Z zcmp (key_of p) t
   end.
 
 (* the proved bounds (C17.Props): comparator calls of one point operation on a container holding n keys *)
@@ -68,7 +74,10 @@ Definition bound_op (k : ckind) (o : bop) (n : Z) : Z :=
   end.
 
 Definition shape_size (s : shape) : Z :=
-  match s with SBin t => Z.of_nat (bin_count t) | SBT t => Z.of_nat (bt_count 64 t) | SBTEmpty => 0 end.
+  match s with
+  | SBin t => Z.of_nat (bin_count t) | SBT t => Z.of_nat (bt_count 64 t) | SBTEmpty => 0
+  | SRB t => Z.of_nat (bin_count t) | SAVL t => Z.of_nat (bin_count t)
+  end.
 
 Definition probe_kind (k : ckind) (s : shape) (x : probe * nat) : nat :=
   let '(p, c) := x in
@@ -99,6 +108,8 @@ Definition sum_nat (l : list nat) : Z := fold_right (fun x a => Z.of_nat x + a) 
 Definition avg_ok (n : Z) (batch : list nat) : bool :=
   sum_nat batch <=? (4 * Z.log2 (n + 2) + 16) * Z.of_nat (length batch).
 
+Definition agree (b : bool) : nat := kind_of b true.
+
 (* ---- B-tree, mutating operations on a carried model tree ---- *)
 Fixpoint node_eqb (fuel : nat) (a b : BTree.node Z Z) : bool :=
   match fuel with
@@ -123,6 +134,41 @@ Definition bt_step (m : nat) (st : BTree.state Z Z) (x : mprobe * nat) : BTree.s
   | MFinal s => (st, kind_of (negb (BTree.stuck st) && option_eqb (node_eqb 64) r (bt_root s)) true)
   end.
 
+(* ---- red-black / AVL, mutating operations on a carried model tree: every comparison is on the search path ---- *)
+Fixpoint tree_eqb {A} (aeqb : A -> A -> bool) (a b : BinTree.tree Z Z A) : bool :=
+  match a, b with
+  | E, E => true
+  | T x l k v r, T x' l' k' v' r' => aeqb x x' && (k =? k') && (v =? v') && tree_eqb aeqb l l' && tree_eqb aeqb r r'
+  | _, _ => false
+  end.
+Definition color_eqb (a b : RB.color) : bool :=
+  match a, b with RB.R, RB.R | RB.B, RB.B => true | _, _ => false end.
+Definition bin_kinds (c model : nat) (bound : Z) : nat := kind_of (Nat.eqb c model) (Z.of_nat c <=? bound).
+Definition bin_step (st : shape) (x : mprobe * nat) : shape * nat :=
+  let '(p, c) := x in
+  match st with
+  | SRB t =>
+      let b := bound_get KRB (Z.of_nat (bin_count t)) in
+      match p with
+      | MPut k => (SRB (RB.put Z Z zcmp k k t), bin_kinds c (rb_put_cost Z Z RB.color zcmp k t) b)
+      | MRemove k => (SRB (if RB.is_some (BinTree.lookup zcmp k t) then RB.remove Z Z zcmp k t else t),
+                      bin_kinds c (path_cost Z Z RB.color zcmp k t) b)
+      | MGet k => (st, bin_kinds c (path_cost Z Z RB.color zcmp k t) b)
+      | MFinal (SRB t') => (st, agree (tree_eqb color_eqb t t'))
+      | MFinal _ => (st, 1%nat)
+      end
+  | SAVL t =>
+      let b := bound_get KAVL (Z.of_nat (bin_count t)) in
+      match p with
+      | MPut k => (SAVL (fst (AVL.put Z Z zcmp k k t)), bin_kinds c (path_cost Z Z Z zcmp k t) b)
+      | MRemove k => (SAVL (fst (AVL.remove Z Z zcmp k t)), bin_kinds c (path_cost Z Z Z zcmp k t) b)
+      | MGet k => (st, bin_kinds c (path_cost Z Z Z zcmp k t) b)
+      | MFinal (SAVL t') => (st, agree (tree_eqb Z.eqb t t'))
+      | MFinal _ => (st, 1%nat)
+      end
+  | _ => (st, 1%nat)
+  end.
+
 (* ---- skip lists, operations on a carried level-0 sequence ---- *)
 Definition knode_eqb (a b : knode) : bool := (fst a =? fst b) && Nat.eqb (snd a) (snd b).
 Definition sk_mem (k : Z) (l : list knode) : bool := existsb (fun y => fst y =? k) l.
@@ -136,7 +182,6 @@ Fixpoint ztrim (l : list knode) (h : nat) : nat :=
   | S (S _ as h1) => if existsb (fun y => Nat.ltb h1 (snd y)) l then h else ztrim l h1
   | _ => h
   end.
-Definition agree (b : bool) : nat := kind_of b true.
 Definition sk_step (kd : skind) (st : list knode * nat) (x : sprobe * nat * nat) : (list knode * nat) * nat :=
   let '(p, c, ha) := x in
   let '(l, hi) := st in
@@ -185,6 +230,7 @@ Definition check_case (c : case) : nat :=
       if negb (skip_lanes_b hi lanes levels) then 1%nat
       else scan (fun (_ : unit) b => (tt, kind_of true (avg_ok n b))) tt batches 1
   | CBTOps m s ops => scan (bt_step m) (BTree.mkState (bt_root s) 0 false) ops 0
+  | CBinOps s ops => scan bin_step s ops 0
   | CSkipOps kd hi keys hs lanes ops =>
       if negb (sk_struct_b hi keys hs lanes) then 1%nat
       else scan (sk_step kd) (combine keys hs, hi) ops 1
